@@ -118,6 +118,26 @@ def bounded_by_declared(c):
     return z3.And(*goals) if goals else z3.BoolVal(True)
 
 
+def _with_callees(mod, fnode, depth=2):
+    """The function and the functions / methods of its module it calls by name (`f(..)`, `self.f(..)`), two levels."""
+    out, todo = [fnode], [(fnode, 0)]
+    while todo:
+        g, d = todo.pop()
+        if d >= depth:
+            continue
+        for c in ast.walk(g):
+            if not isinstance(c, ast.Call):
+                continue
+            name = c.func.id if isinstance(c.func, ast.Name) else (c.func.attr if isinstance(c.func, ast.Attribute) and isinstance(c.func.value, ast.Name) and c.func.value.id in ("self", "cls") else None)
+            if name is None:
+                continue
+            for q, h in mod.functions.items():
+                if q.split(".")[-1] == name and not any(h is o for o in out):
+                    out.append(h)
+                    todo.append((h, d + 1))
+    return out
+
+
 def contracts(reg, mod):
     install(reg)
     out, kws = [], {}
@@ -129,7 +149,8 @@ def contracts(reg, mod):
             continue
         # a decoder that shifts by an amount computed from its properties (LZMA2 dictionary size) is outside the integer fragment for
         # symbolic property bytes: there the properties are sampled (absent, empty, one byte of each branch); they do not bear on the bound
-        shifts = any(isinstance(x, ast.BinOp) and isinstance(x.op, (ast.LShift, ast.RShift)) and not isinstance(x.right, ast.Constant) for x in ast.walk(fnode))
+        shifts = any(isinstance(x, ast.BinOp) and isinstance(x.op, (ast.LShift, ast.RShift)) and not isinstance(x.right, ast.Constant)
+                     for g in _with_callees(mod, fnode) for x in ast.walk(g))
         mk = {"self": p_unk(), "data": p_bytes(2), "properties": p_props_sampled() if shifts else p_opt(p_bytes(5)), "unpack_sizes": p_sizes()}
         out.append((q, params, mk))
     return out
